@@ -266,3 +266,68 @@ func TestVerifC07ConcurrentCPRNG(t *testing.T) {
 func TestVerifC07ConcurrentCache(t *testing.T) {
 	concExplore(t, "C07", "concurrent-shared-credential", vkit.Pick(2, 3), 200*time.Second, 1200*time.Second)
 }
+
+// TestVerifC07Volume: many proofs from ONE credential, all pairs judged at once (the judge is linear
+// in the number of proofs).  A randomiser drawn from a space of fewer than N values must repeat among
+// N+1 proofs (pigeonhole), one of fewer than ~N^2/2 values repeats with probability > 1/2: what the
+// short histories of the sequential part cannot see - a randomiser that is fresh every time but comes
+// from a small set - shows up here, and deterministically so for sets smaller than N.
+func TestVerifC07Volume(t *testing.T) {
+	r := vkit.Start(t, "C07", "many-proofs-of-one-credential", 200*time.Second, 900*time.Second)
+	defer r.Finish()
+	N := vkit.Pick(2048, 16384)
+	r.Bounds["proofs_per_credential"] = N
+	r.Rule = fmt.Sprintf("one credential with a witness (toy key), %d proofs in a row per kind {disclosure without / with non-revocation part (cache never prepared), randomised signature alone}; non-trivial = distinct proof; oracle over all pairs (linear-time set membership): A, C_r, C_u never repeat, implied randomisers of every hidden attribute, the secret key and the exponent pairwise distinct", N)
+	kA := vfK("toyB")
+	pks := map[string]*gabikeys.PublicKey{"A": kA.Pk}
+	vfInstallEnv(t, "C07/volume", r.Seed)
+	secret := vfTag("c07-secret")
+	for _, kind := range []string{"prove-plain", "prove-nonrev", "randomize"} {
+		if _, mine := r.Next(); !mine {
+			continue
+		}
+		w := c11NewWorld(kA)
+		credA := w.issue(secret, []*big.Int{vfTag("c07-a1"), vfTag("c07-a2")}, 3)
+		var items []c07Item
+		seenA := map[string]int{}
+		n := N
+		if kind == "prove-nonrev" {
+			n = N / 4 // four times the cost per proof
+		}
+		for i := 0; i < n; i++ {
+			if r.Expired() {
+				return
+			}
+			r.Eval()
+			r.Nontrivial(fmt.Sprintf("%s #%d", kind, i))
+			if kind == "randomize" {
+				s, err := credA.Signature.Randomize(kA.Pk)
+				if err != nil {
+					r.Violate("C07|randomize-failed", err.Error(), kind)
+					return
+				}
+				if j, dup := seenA[s.A.String()]; dup {
+					r.Violate("C07|repeated-A|randomised-signatures-of-one-credential", fmt.Sprintf("randomisations %d and %d of one signature (out of %d) have the same A: the randomiser comes from a small set", j, i, n), kind)
+					break
+				}
+				seenA[s.A.String()] = i
+				continue
+			}
+			p, err := credA.CreateDisclosureProof([]int{1}, nil, kind == "prove-nonrev", vfContext, vfNonce)
+			if err != nil {
+				r.Violate("C07|proof-not-created", err.Error(), kind)
+				return
+			}
+			c07E[p] = credA.Signature.E
+			items = append(items, c07Item{op: kind, list: 1000 + i, cred: "A", d: p, attrs: credA.Attributes})
+		}
+		if sig, detail := c07Judge(pks, items, secret); sig != "" {
+			r.Violate("C07|"+sig+"|many-proofs-of-one-credential", fmt.Sprintf("%d x %s: %s", len(items), kind, detail), kind)
+		}
+		for _, it := range items {
+			delete(c07E, it.d)
+		}
+		r.Outcome(fmt.Sprintf("%s:proofs=%d", kind, n))
+		r.Sample(map[string]any{"kind": kind, "proofs": n})
+	}
+}
